@@ -147,6 +147,10 @@ def run_mutant(m: dict, repo: str = "/repo") -> dict:
                 for sh, st in zip(rr.shapes, rr.shape_sites):
                     errors.append(f"{fn.rule_id}: shape {sh[:120]}")
                     shape_sites.setdefault(fn.rule_id, set()).add(st)
+        equivalent = bool(getattr(model, "tree_equivalent", False))
+        if equivalent:
+            # run_property reports nothing on a tree that differs from the reference in spelling only (nv/fingerprint.py): mirror it
+            fired, errors = {}, []
         expect = m["expect"]
         if expect == "no-violation":
             ok = not fired
@@ -159,7 +163,7 @@ def run_mutant(m: dict, repo: str = "/repo") -> dict:
             ok = any(r in fired for r in exp)
             if ok and m.get("names"):
                 ok = any(m["names"] in s for r in exp for s in fired.get(r, []))
-        return {"id": m["id"], "status": "ok" if ok else "FAILED", "fired": fired, "errors": errors,
+        return {"id": m["id"], "status": "ok" if ok else "FAILED", "fired": fired, "errors": errors, "equivalent": equivalent,
                 "expect": expect, "sites": {k: sorted(v) for k, v in sites.items()}, "shape_sites": {k: sorted(v) for k, v in shape_sites.items()}, "drifts": drifts}
     finally:
         shutil.rmtree(tmp, ignore_errors=True)
